@@ -7,12 +7,14 @@ P = program.load(quiet=True)
 name = sys.argv[1]
 ent = census.load_table()[name]
 act, _ = census.compute(P, name, tuple(ent.get('opaque', ())), bool(ent.get('effects')), ent.get('sinks'), bool(ent.get('closures')), bool(ent.get('guarded')))
+for _d, _l in (ent.get('abbr') or {}).items():
+    facts.ABBR.setdefault(_d, frozenset(_l))
 lost, nr, na = facts.lost(ent['exits'], act)
 fa = facts.facts(act)
 print('normalised:', P.normalised)
 for f in lost:
     print('LOST', facts.render(f))
-    near = [g for g in fa if g[0] == f[0] and (f[0] != 'cmp' or g[1] == f[1])]
+    near = [g for g in fa if g[0] == f[0] and (f[0] not in ('cmp', 'effect') or g[1] == f[1])]
     def score(g):
         a = set().union(*[x for x in f[1:] if isinstance(x, frozenset)]); b = set().union(*[x for x in g[1:] if isinstance(x, frozenset)])
         return -len(a & b) + len(a ^ b) * 0.1
